@@ -638,7 +638,8 @@ func (req *Request) buildDistributedLocalRequest() *Request {
 		WaitCondition:       req.WaitCondition,
 		WaitConditionNegate: req.WaitConditionNegate,
 	}
-	if req.Limit != nil && *req.Limit != 0 {
+	if req.Limit != nil {
+		// "Limit: 0" is a limit as well (clients use it to fetch total_count only)
 		limit := *req.Limit + req.Offset
 		localReq.Limit = &limit
 	}
@@ -733,7 +734,8 @@ func (req *Request) buildDistributedRequestData(subBackends []string) (requestDa
 	// Limit
 	// An upper limit is used to make sorting possible
 	// Offset is 0 for sub-request (sorting)
-	if req.Limit != nil && *req.Limit != 0 {
+	// "Limit: 0" is a limit as well (clients use it to fetch total_count only)
+	if req.Limit != nil {
 		requestData["limit"] = *req.Limit + req.Offset
 	}
 
